@@ -11,6 +11,8 @@ e (added)  one-parameter secant step: arc length |s0| for a 1-element step of ei
 
 f (round 3)  the default continuation parameter of a family consists of free coordinates of the reversing symmetry its correction relies on
 d-cache (round 3)  the generate() key contains the options whole (C20.b re-filed)
+e (round 4)  the configuration keeps the user's component order and the parameter getter reads it in that order; a step / target wider than the number of components must be rejected (known finding);
+   d: options chain create_problem + to_backend_inputs
 """
 from __future__ import annotations
 
@@ -50,6 +52,8 @@ def run(tier):
     _f_members(chk)
     _f_parameter_symmetry(chk)
     _d_options_chain(chk)
+    _e_component_order(chk)
+    _e_width_validation(chk)
     # a family served from the cache is the one generated with the options of the call (every step-control field included)
     from . import c20
     from .common import Relabel
@@ -554,6 +558,57 @@ def _e_predictions(chk):
 
 
 # ------------------------------------------------------------------------------------------------ f
+def _e_width_validation(chk):
+    """A step / target with more columns than the configuration has continuation components is ill-formed: the predictor's zip()
+    drops the surplus step entries, the secant stepper uses the norm of ALL of them as its step length, and the one-element
+    parameter is broadcast against every target column - so the first member is offset by |step| instead of step[0] and the run
+    stops because a column that belongs to no parameter is 'left'.  The interface must reject such options (anything that
+    raises is accepted); silently building the problem is the violation."""
+    mod, cls = ri.find_def(IF, "_OrbitContinuationInterface")
+    opts = SymObj(None, {"target": to_obj_array([[sp.Symbol("A0"), sp.Symbol("B0")], [sp.Symbol("A1"), sp.Symbol("B1")]]), "step": to_obj_array([sp.Symbol("D0"), sp.Symbol("D1")]),
+                         "max_members": 3, "max_retries_per_step": 3, "shrink_policy": None, "step_min": sp.Symbol("SMIN"), "step_max": sp.Symbol("SMAX"),
+                         "extra_params": SymObj(None, {k: sp.Symbol(k) for k in ("tol", "max_attempts", "max_delta", "order", "steps", "forward", "fd_step")}, "extra")}, "options")
+    cfg = SymObj(None, {"make_parameter_getter": lambda: sp.Symbol("GETTER"), "make_representation_of": lambda: sp.Symbol("REPR"), "state_indices": (2,), "_state_indices": (2,),
+                        "stepper": "secant"}, "config")
+    ip = Interp(overrides={"_ContinuationProblem": lambda ip_, a, k: SymObj(None, dict(k), "problem")}, decide=lambda c: None)
+    iface = SymObj(ClassRef(mod, cls), {}, "interface")
+    raised = False
+    try:
+        ip.apply(ip.getattr(iface, "create_problem"), [], {"domain_obj": SymObj(None, {}, "seed"), "config": cfg, "options": opts})
+    except KpeRaise:
+        raised = True
+    except OutsideFragment as exc:
+        raise AnalysisError(f"create_problem outside fragment: {exc}")
+    chk.check(raised, "C13.e", f"{IF}::_OrbitContinuationInterface.create_problem[width of step/target]",
+              "options with a 2-column step / target are accepted for a configuration with 1 continuation component: the first prediction is offset by |step| and the target "
+              "test runs on a column that belongs to no parameter", sample="step/target width != number of state components -> rejected")
+
+
+def _e_component_order(chk):
+    """step[i] and target[:, i] of the options belong to state[i] of the configuration: the configuration keeps the user's component
+    order (no sorting, no de-duplication) and the parameter getter reads the components in that order - `state=(Z, X)` with
+    `step=(dz, dx)` must add dz to z.  The real _coerce_state_indices and parameter getter are interpreted on (2, 0), (0, 2), (4,)."""
+    CFGM = "hiten.algorithms.continuation.config"
+    cmod, ccls = ri.find_def(CFGM, "OrbitContinuationConfig")
+    vec = to_obj_array([sp.Symbol(f"s{i}") for i in range(6)])
+    for state in ((2, 0), (0, 2), (4,), (1, 5, 3)):
+        ip = Interp()
+        ip.isinstance_hook = lambda v, c: (isinstance(v, (tuple, list)) if (getattr(getattr(c, "node", None), "name", None) == "Sequence" or "Sequence" in repr(c)) else
+                                           (False if getattr(getattr(c, "node", None), "name", None) == "SynodicState" else None))
+        try:
+            idx = ip.apply(ip.getattr(ClassRef(cmod, ccls), "_coerce_state_indices"), [state], {})
+            getter = ip.call_function(CFGM, "_make_orbit_parameter_getter", [idx])
+            got = to_obj_array(ip.apply(getter, [vec.copy()], {}))
+        except OutsideFragment as exc:
+            raise AnalysisError(f"continuation state indices outside fragment: {exc}")
+        chk.count("functions partially evaluated", 2)
+        chk.check(tuple(int(S(i)) for i in idx) == state, "C13.e", f"{CFGM}::OrbitContinuationConfig._coerce_state_indices[{state}]",
+                  f"state={state} is stored as {tuple(idx)}: step / target columns of the options (given in the user's order) are then applied to other components",
+                  sample=f"state={state} kept in the given order")
+        chk.check(list(got) == [vec[i] for i in state], "C13.e", f"{CFGM}::_make_orbit_parameter_getter[{state}]",
+                  f"the parameter of a member with state s is {list(got)} for state={state}, expected {[vec[i] for i in state]}", sample=f"parameter = s[{list(state)}]")
+
+
 def _d_options_chain(chk):
     """Bounds and limits of the call reach the backend: _OrbitContinuationInterface.create_problem and to_backend_inputs are
     interpreted with symbolic options; step, target, member limit, retry limit, minimum / maximum step and shrink policy arrive in
